@@ -391,6 +391,14 @@ var c07Special = []func() []gen.Node{
 			&gen.NInclude{Tpl: str("showa"), With: &gen.EHash{Keys: []gen.Expr{nm("b")}, Vals: []gen.Expr{&gen.ECall{Fn: "setvar", Args: []gen.Expr{str("a"), str("new3")}}}}}, pr(nm("a")), tx("|"),
 			&gen.NFor{Val: "i", Seq: &gen.EArr{Els: []gen.Expr{num(1), num(2)}}, Body: []gen.Node{&gen.NInclude{Tpl: name("in-loop")}}}, pr(nm("a")), c07Probe("end")}
 	},
+	func() []gen.Node { // a loop record that is kept in an outer variable keeps describing the pass it was taken in
+		return []gen.Node{&gen.NSet{Name: "keep", X: &gen.ENull{}}, &gen.NSet{Name: "keep2", X: &gen.ENull{}},
+			&gen.NFor{Val: "i", Seq: &gen.EArr{Els: []gen.Expr{str("first"), str("mid"), str("later")}}, Body: []gen.Node{
+				&gen.NIf{Conds: []gen.Expr{attr(nm("loop"), "first")}, Bodies: [][]gen.Node{{&gen.NSet{Name: "keep", X: nm("loop")}}}},
+				&gen.NIf{Conds: []gen.Expr{&gen.EBin{Op: "==", L: attr(nm("loop"), "index"), R: num(2)}}, Bodies: [][]gen.Node{{&gen.NSet{Name: "keep2", X: nm("loop")}}}},
+				pr(attr(nm("keep"), "index")), tx("/"), pr(attr(nm("keep2"), "index")), tx(",")}},
+			tx("|"), pr(attr(nm("keep"), "index")), pr(attr(nm("keep"), "revindex")), pr(attr(nm("keep"), "first")), pr(attr(nm("keep"), "last")), tx("/"), pr(attr(nm("keep2"), "index")), pr(attr(nm("keep2"), "revindex0")), c07Probe("end")}
+	},
 	func() []gen.Node { // the else branch of a loop is no loop body: what it sets (or captures) is set where the loop stands
 		empty := func(n string, els ...gen.Node) gen.Node {
 			return &gen.NFor{Val: "i", Seq: &gen.EArr{}, Body: []gen.Node{tx("never")}, HasElse: true, Else: els}
